@@ -268,11 +268,17 @@ def write_message(spec, tables=None):
         d = dict(d)
         for k, v in spec['extra_d'].items():
             d[int(k)] = [int(x) for x in v]
+    pads = spec.get('pads') or {}
+    comp = bool(spec.get('compressed'))
+    if 'raw_ids' in spec:
+        # operator-bearing templates: descriptor list and data bits are given as they are; the data
+        # section content is not modelled (no ground truth), only framed
+        ids = list(spec['raw_ids'])
+        nsub = spec.get('nsub', 1)
+        return _frame(spec, ids, bytes.fromhex(spec['raw_data']), nsub, comp, pads, None, {})
     ids = flat_ids(spec['template'])
     tree = _expand(spec['template'], b, d)
-    pads = spec.get('pads') or {}
     nsub = len(spec['subsets'])
-    comp = bool(spec.get('compressed'))
 
     # ---- data section bits
     bp = BitPacker()
@@ -361,7 +367,12 @@ def write_message(spec, tables=None):
                 for k, x in enumerate(col):
                     truth_subsets[k].append([eid, x, 'n'])
     data = bp.to_bytes()
+    infos = dict((str(eid), list(info)) for slots in per_subset for (eid, info, _r) in slots)
+    return _frame(spec, ids, data, nsub, comp, pads, truth_subsets, infos)
 
+
+def _frame(spec, ids, data, nsub, comp, pads, truth_subsets, infos):
+    ed = spec['edition']
     # ---- sections
     y, mo, dd, hh, mi, ss = spec.get('date') or [2020, 1, 2, 3, 4, 5]
     has2 = spec.get('sec2') is not None
@@ -418,8 +429,7 @@ def write_message(spec, tables=None):
     if has2:
         sections[2] = {'section_length': len(sec2)}
     truth = {'header': hdr, 'section_lengths': dict((str(k), v['section_length']) for k, v in sections.items()),
-             'subsets': truth_subsets,
-             'infos': dict((str(eid), list(info)) for slots in per_subset for (eid, info, _r) in slots)}
+             'subsets': truth_subsets, 'infos': infos}
     return msg, truth
 
 
